@@ -12,6 +12,12 @@ CLAIMED = {
  "C18": ("Deductive proof that the only ftruncate site (DB.grow) never extends the file beyond MaxSize, that DB.allocate leaves the high-water mark untouched on error and keeps (hwm+1)*pageSize <= MaxSize when it moves it, with mmapSize/growSize verified against functional contracts (bit-precise int arithmetic, nonlinear size products). Refutations are replayed on the real code by the maxsize scenario.",
          "Trusted: os.File.Truncate sets the length (A-os-io), DB.fileSize reports it; DB.mmap's contract is assumed (opaque); the freelist interface contract at the Allocate call site.",
          "contract-based deductive verification (SSA VC generation + SMT)", "§6 C18"),
+ "C12": ("Layout obligations (struct sizes, field offsets and widths, flag values, magic, version, checksum range) evaluated from go/types for gc/amd64 and compared with the published v2 numbers written in the contracts; deductive proof of Meta.Write (slot = txid mod 2, meta flag, checksum recomputed, exact struct copy behind the page header) and Meta.Validate.",
+         "Trusted: Meta.Sum64 = FNV-1a over the first 56 bytes as a function of the nine fields stored there (range checked by a K obligation), Page.Meta aliasing (A-unsafe), amd64 little-endian. Inode (de)serialisation, freelist page encoding and DB.init are not yet under contract (listed in DESIGN.md).",
+         "contract-based deductive verification + constant evaluation of layout obligations", "§6 C12"),
+ "C11": ("Deductive proof of Meta.Validate (nil iff magic, version and checksum match; error precedence), DB.meta (newest valid meta, fallback to the other, panic only if both invalid), and the page-size probes getPageSize / getPageSizeFromFirstMeta / getPageSizeFromSecondMeta (a size is returned only from a validated meta; all 15 probe offsets are read); QF_BV lemma: one FNV-1a step is injective in the byte and in the state, so any single altered byte changes the checksum.",
+         "Trusted: os.File.ReadAt/Stat, pageInBuffer/Page.Meta aliasing (A-unsafe), hash/fnv = FNV-1a-64, A-hash for multi-byte torn writes. The validation tail of DB.mmap and Open's error paths are not yet under contract.",
+         "contract-based deductive verification (SSA VC generation + SMT, QF_BV lemma)", "§6 C11"),
 }
 NA_REASON = {}
 
